@@ -514,6 +514,8 @@ def spec_class(c):
         if m == truth:
             return None
         return "%s:intermediate-not-wrapped:value" % ev if not exact else "%s:%s:value" % (ev, opn)
+    if c.extra.get("float_fallback") and isinstance(m, list) and (is_err(s) or s[1] != "F32"):
+        return "%s:integer-expression:re-evaluated-in-floating-point" % ev
     if is_err(s):
         if m is None:
             # no value substituted; at function scope the expression is left to run time without any diagnostic
